@@ -121,9 +121,16 @@ def _axes(s, labels=None):
     return axes
 
 
+VSHIFT = 0     # set by the engine from case['vshift'] (thorough tier of modules with VARIANT_SWEEP): rotates the non-fresh state variants,
+               # so that every case is executed on every history variant of its array, not only on the one its index selects
+
+
 def build_impl(s):
     """DimArray for a spec; harness constructors always pass ndarrays and Axis objects"""
     var = s.get("var", "fresh")
+    if VSHIFT and var != "fresh":
+        nf = VARIANTS[1:]
+        var = nf[(nf.index(var) + VSHIFT) % len(nf)]
     opt = s.get("opt")
     if opt:
         da.rcParams["indexing.by"] = opt
